@@ -47,6 +47,7 @@ def build_env(ctx: ShardCtx, res: ShardResult):
     env.add_defaults_stream()
     # a stream as older databases hold it: the names of its media files carry the ".mp4" suffix
     env.add_legacy_names_stream()
+    env.add_dotted_names_stream()
     try:
         from dlv import synth
         synth.add_synthetic_streams(env, ctx, res)
